@@ -11,10 +11,10 @@ TITLE = "publications file: strict structure, exact signed range, trust only via
 
 
 def run(prog, chk):
-    der_whole_value(prog, chk)
-    signer_certificate_table(prog, chk)
-    lookup_by_string_table(prog, chk)
-    _run(prog, chk)
+    chk.defer(der_whole_value, prog, chk)
+    chk.defer(signer_certificate_table, prog, chk)
+    chk.defer(lookup_by_string_table, prog, chk)
+    chk.defer(_run, prog, chk)
 
 
 def der_whole_value(prog, chk):
